@@ -156,6 +156,30 @@ def e_inherited_clash(rng, m):
     return "derived redefines inherited " + ch["name"]
 
 
+def e_inherited_attr_clash(rng, m):
+    cs, res = conts(m)
+    cand = []
+    for t in m["types"]:
+        if t["kind"] == "section" and t.get("extends"):
+            base = res.types[t["extends"]]
+            own = res.types[t["name"]]
+            used = set(family.norm_key(c.get("_declared_under",
+                                             own.keytype), c["name"])
+                       for c in own.children if c["name"] not in ("*", "+"))
+            for ch in base.children:
+                cand.append((t, base.attr_of(ch), own.keytype, used))
+    x = _pick(rng, cand)
+    if not x:
+        return None
+    t, attr, kt, used = x
+    name = _pick(rng, [n for n in ["zeta", "eta", "theta"]
+                       if family.norm_key(kt, n) not in used])
+    if not name:
+        return None
+    t["children"].append(_newkey(name, attr))
+    return "derived reuses inherited attribute " + attr
+
+
 def e_use_before_def(rng, m):
     # move a type definition behind the document's end of types and use it
     # earlier, or reference an unknown name
@@ -485,7 +509,7 @@ def e_section_of_schema(rng, m):
 
 
 EDITS = [e_dup_type, e_dup_key, e_dup_attr, e_hyphen_underscore,
-         e_inherited_clash, e_use_before_def, e_extends_abstract,
+         e_inherited_clash, e_inherited_attr_clash, e_use_before_def, e_extends_abstract,
          e_implements_concrete, e_wild_without_attr, e_key_star,
          e_multisection_fixed, e_default_on_required,
          e_keyed_default_on_plain, e_unkeyed_default_on_wild,
